@@ -447,7 +447,6 @@ func TestVerifC05(t *testing.T) {
 	}
 }
 
-
 // vInnerPagesCase: a script of page calls decides the inner machine's page map (model: GP B.8 `pages`: mode 0 inaccessible,
 // 1/3 read-only, 2/4 read-write, modes 3/4 refused with HUH when a page of the range is inaccessible); a load/store
 // program aimed at the edges of exactly those pages is stored with `machine`, the script is executed through the real
